@@ -6,8 +6,8 @@ import vf
 sys.path.insert(0, os.path.dirname(os.path.abspath(__file__)))
 
 CFG = 'CONSTANTS\n  Vars <- MCVars\n  Vals <- MCVals\n  Semantics = "%s"\n  Depth = %d\n'
-VARS = ["db", "PK", "OsIndications"]
-VALS = ["empty", "d1", "d3", "dc", "d1c"]
+VARS = ["db", "PK", "OsIndications", "osindications"]
+VALS = ["empty", "d1", "d3", "dc", "d1c", "huge"]
 
 
 def emit(c, depth, simulate=None):
@@ -88,8 +88,8 @@ def run(c):
     c.cov["evaluations"] = len(scen)
     c.cov["traces_validated_against_impl"] = len(scen)
     c.cov["exhaustive_depth"] = 2 if c.quick else 3
-    c.cov["rule"] = ("API-grain histories (plain/signed writes of 5 values incl. empty and a value that is a proper prefix of another, reads) over db, PK and an "
-                     "ordinary variable generated by TLC from spec/EfiVarFs.tla (all of depth 2%s, -simulate deeper), seeded random length-30+ histories over 6 "
+    c.cov["rule"] = ("API-grain histories (plain/signed writes of 6 values incl. empty, a value that is a proper prefix of another and one of 70 000 bytes, reads) over db, PK and two "
+                     "ordinary variables whose names differ only in letter case, generated by TLC from spec/EfiVarFs.tla (all of depth 2%s, -simulate deeper), seeded random length-30+ histories over 6 "
                      "variables, a third of them on pre-populated stores; validated by spec/EfiVarFsTrace.tla. non-trivial = at least one write and one read") % (
                          "" if c.quick else " and 3")
     for s in scen[:1] + scen[nexh:nexh + 1] + scen[-1:]:
